@@ -465,7 +465,7 @@ Qed.
 Lemma upper_power_of_two_wraps : upper_power_of_two 0 = 0 /\ upper_power_of_two (2 ^ 63 + 1) = 0.
 Proof. split; vm_compute; reflexivity. Qed.
 
-(** ** the tree after the fixes d13e4f1 (padded length) and 5c817d5 (guard in main) *)
+(** ** the tree after the fixes 899923d (padded length) and de00324 (guard in main) *)
 Lemma Qctrunc_Qcz z : Qctrunc (Qcz z) = z.
 Proof.
   unfold Qctrunc. pose proof (this_Qcz z) as E. destruct (this (Qcz z)) as [a d].
